@@ -63,6 +63,14 @@ def durability_oracle(scen, trace):
         elif n == 'renameat':
             old = (proc.unescape(a['olddir']), proc.unescape(a['old']))
             new = (proc.unescape(a['newdir']), proc.unescape(a['new']))
+            # delivery commit: a file this run created (the stdin spool) is renamed into a maildir directory - from here on the exit
+            # status may be 0, so everything written to it must already be on stable storage ("0 only if stored durably")
+            if old in files and not files[old]['initial'] and re.search(rb'/(new|cur)$', new[0]) and new[0] != old[0]:
+                f = files[old]
+                if not f['size'] or f['durable'] != f['size']:
+                    probs.append('call %d: %s/%s is renamed into %s with %s bytes written and only %s on stable storage'
+                                 % (t['k'], old[0].decode('latin-1').replace(scen.root, '@R@'), old[1].decode('latin-1'),
+                                    new[0].decode('latin-1').replace(scen.root, '@R@'), f['size'], f['durable']))
             if old in files:
                 files[new] = files.pop(old)
                 if cur_msg == old:
